@@ -102,6 +102,8 @@ class Impl:
             return [5, 4]
         except OSError as e:
             return [5, 9]
+        except Exception:  # noqa: BLE001  not an OS error at all (ValueError, TypeError ...): an observation like any other, so
+            return [5, 99]  # that the oracle reports it with the operation sequence instead of the check aborting
         return [-1]
 
 
@@ -314,6 +316,8 @@ def run(tier, seed):
                 dist[(o[0], tuple(res[:2]) if res[0] in (0, 5) else res[0])] = dist.get((o[0], tuple(res[:2]) if res[0] in (0, 5) else res[0]), 0) + 1
                 distinct.add((tuple(sorted((k, v_) for k, v_ in before.items())), tuple(o), tuple(res)))
                 fail = law_check(o, res, before, after)
+                if not fail and res[:2] == [5, 99]:
+                    fail = "the operation raised an exception that is neither a status code nor an OS error (ValueError, TypeError ...)"
                 if not fail:
                     er = expected_refusal(o, before)
                     if er is not None and res[:2] != [0, er]:
